@@ -40,10 +40,14 @@ def check(ctx):
     # impl -> spec: random Gaussian rationals, rank-embedded f64 triples, wide-range f64 operands
     cases = ctx.gen('cfield')
     ev = ctx.exec('cfield', cases)
+    import vlib
+    if not any(e.get('op') == 'soak_end' for e in vlib.read_ndjson(ev)):
+        raise vlib.ToolError('C13: the soak family (call-count dependence) did not run')
     ctx.validate('Trace_ComplexField', ev, cases, 'cfield', nontrivial=nt)
     return ctx.finish(
         rule='cases: (i) every TLC-enumerated triple (z,w,v) (all operator variants on (z,w) when v = 0, order/equality on every triple), (ii) random Gaussian rationals n/d, |n| <= 9, d <= 4 (half dyadic, run on f64 too), '
              '(iii) random f64 triples over ranks -10..10 (0, +-1e-100..+-1e100) incl. ties in exactly one component (either) and in both, (iv) f64 pairs with components of magnitude 1e-100..1e100 in 25 operand-shape combinations (zero parts, purely real/imaginary, equal operands), '
+             '(vi) a soak of 2^20+64 consecutive guarded calls of each of the 29 operations on fixed inexact operands (every result bit-identical to the first, no panic: call-count dependence), '
              '(v) f64 pairs whose components differ by factors 1e-6..1e-20 (either component, either or both operands). The operators <, <=, >, >=, ==, != are called directly besides partial_cmp. One event per public call: '
              '4 binary, neg, conj, abs_sqr, 5 mixed real forms, 8 assignment forms (+ their binary twins), identity group, comparison group. Distinct = distinct (operation, operands, outcome).',
         trusted=['TLC', 'ComplexField.tla operators (cross-checked by the field/order laws)', 'harness projection of Complex<T> to rationals / bit strings', 'double-double reference (harness/src/dd.rs) for the f64 error units'])
